@@ -848,3 +848,47 @@ package bus
 //@   ensures[C11] err == nil
 //@   ensures[C11] closer != nil ==> c.endpoint.nhandlers == old(c.endpoint.nhandlers) + 1
 //@   ensures[C11] closer == nil ==> c.endpoint.nhandlers == old(c.endpoint.nhandlers)
+
+// ---- the rest of the object's message path under the zero-precondition safety sweep (C12: whatever
+// a client sends, no method of the generic object panics): registerEvent / unregisterEvent front ends
+// (the registerEvent payload is peeked at for the trace signal before it is decoded for good), the
+// property listing, the flags, the tracer selection.
+//@ func (o *objectImpl) RegisterEvent(msg *net.Message, from Channel) (err error)
+//@   tags C12
+//@   requires msg != nil && from != nil && o.signalHandler != nil && !o.signalHandler.signalsMutex.lockw && o.signalHandler.signalsMutex.lockr == 0
+//@   modifies everything, o.signalHandler.regadded
+//@ func (o *objectImpl) UnregisterEvent(msg *net.Message, from Channel) (err error)
+//@   tags C12
+//@   requires msg != nil && from != nil && o.signalHandler != nil && !o.signalHandler.signalsMutex.lockw && o.signalHandler.signalsMutex.lockr == 0
+//@   modifies everything
+//@ func (o *objectImpl) MetaObject(objectID uint32) (result object.MetaObject, err error)
+//@   tags C12
+//@ func (o *objectImpl) Properties() (result []string, err error)
+//@   tags C12
+//@   requires !o.propertiesMutex.lockw && o.propertiesMutex.lockr >= 0
+//@   modifies everything
+//@   ensures !o.propertiesMutex.lockw && err == nil
+//@   loop 1:
+//@     invariant !o.propertiesMutex.lockw && o.propertiesMutex.lockr >= 1 && fresh(properties) && oldarrays_unchanged(properties)
+//@ func (o *objectImpl) RegisterEventWithSignature(objectID uint32, actionID uint32, handler uint64, P3 string) (result uint64, err error)
+//@   tags C12
+//@   ensures err != nil
+//@ func (o *objectImpl) IsStatsEnabled() (result bool, err error)
+//@   tags C12
+//@ func (o *objectImpl) EnableStats(enabled bool) (err error)
+//@   tags C12
+//@   modifies o.statsEnabled
+//@ func (o *objectImpl) IsTraceEnabled() (result bool, err error)
+//@   tags C12
+//@ func (o *objectImpl) EnableTrace(enable bool) (err error)
+//@   tags C12
+//@   modifies o.traceEnabled
+// The Object stub's own dispatch: the channel handed to the methods is whatever the tracer selection
+// returns (never nil), every action goes to its method stub or to the wrapped object.
+//@ interface (i ObjectImplementor) Tracer(msg *net.Message, from Channel) (result Channel)
+//@   requires msg != nil && from != nil
+//@   modifies everything
+//@   ensures result != nil
+//@ func (o *objectImpl) Tracer(msg *net.Message, from Channel) (result Channel)
+//@   tags C12
+//@   requires o.signal != nil
